@@ -543,6 +543,7 @@ def makeevenCIJ(n, k, sz_cl, seed=None):
     n = Nlvl
 
     # create hierarchical template
+    s, CIJ = 2, t  # a single level (n = 2): the template itself
     for lvl in range(1, mx_lvl):
         s = 2**(lvl + 1)
         CIJ = np.ones((s, s))
